@@ -120,7 +120,7 @@ pub fn expected_response(plan: &Plan, scripts: &[Script]) -> (Vec<u8>, usize, us
 }
 
 pub fn run(cfg: &Cfg, rep: &mut Report) {
-    let ntrees = cfg.n(6, 12_000, 500_000);
+    let ntrees = cfg.n(6, 60_000, 1_200_000);
     let nmsg = cfg.n(8, 100, 250) as usize;
     run_cases(cfg, "framing", ntrees, rep, |rng, ctx| {
         let (specs, nh) = TreeGen::generate(rng, true);
